@@ -272,3 +272,23 @@ def shape_ts(shape, L=10.0, mutate=True):
 
 def all_shapes(n):
     return _shapes(n)
+
+
+def two_mrcas_oldest_last():
+    """two trees with different roots 6 (time 2) and 7 (time 3, oldest, last id)."""
+    return _ts(10, [(1, 0)] * 4 + [(0, 1), (0, 1.2), (0, 2), (0, 3)],
+               [(0, 10, 4, 0), (0, 10, 4, 1), (0, 10, 5, 2), (0, 10, 5, 3),
+                (0, 4, 6, 4), (0, 4, 6, 5), (4, 10, 7, 4), (4, 10, 7, 5)],
+               [2, 6], [(0, 4), (1, 5)])
+
+
+def two_mrcas_oldest_first():
+    """as above but the oldest root is node 6 (time 3) and the last node 7 is younger."""
+    return _ts(10, [(1, 0)] * 4 + [(0, 1), (0, 1.2), (0, 3), (0, 2)],
+               [(0, 10, 4, 0), (0, 10, 4, 1), (0, 10, 5, 2), (0, 10, 5, 3),
+                (0, 4, 6, 4), (0, 4, 6, 5), (4, 10, 7, 4), (4, 10, 7, 5)],
+               [2, 6], [(0, 4), (1, 5)])
+
+
+S2["two_mrcas_oldest_last"] = two_mrcas_oldest_last
+S2["two_mrcas_oldest_first"] = two_mrcas_oldest_first
